@@ -22,6 +22,8 @@ import (
 type Engine struct {
 	C        *smt.Ctx
 	Mode     string // default mode: "bv"
+	// SliceBoundLog2: typing assumption "every slice/string has at most 2^n elements" (default 40)
+	SliceBoundLog2 int
 	Prog     *ssa.Program
 	Pkgs     []*packages.Package
 	PkgByPath map[string]*packages.Package
@@ -438,3 +440,10 @@ func (e *Engine) pkgOfFunc(fn *ssa.Function) *packages.Package {
 }
 
 var _ = ast.NewIdent
+
+func (e *Engine) sliceBound() int64 {
+	if e.SliceBoundLog2 > 0 && e.SliceBoundLog2 < 62 {
+		return 1 << uint(e.SliceBoundLog2)
+	}
+	return 1 << 40
+}
